@@ -279,6 +279,8 @@ def scale_of(case, r):
 def judge_case(case, r):
     """Property verdict on the implementation's behaviour.  -> (failures, stats)"""
     fails, stats = [], dict(bitwise=0, gjk_both_raise=0, mesh_value=0, borderline=0)
+    if r.get("harness_exc") == "PROCESS-UNCONFIRMED-TIMEOUT":
+        return [], stats
     if "harness_exc" in r:
         return [f"worker could not run the case: {r['harness_exc']}: {r.get('harness_msg')}"], stats
     for k, (op, t) in enumerate(zip(case["ops"], r["trace"])):
@@ -393,6 +395,8 @@ def impl_tags(case, fl):
 
 def compare_case(case, r, m):
     """flags/exception correspondence model vs implementation -> list of diffs"""
+    if r.get("harness_exc") == "PROCESS-UNCONFIRMED-TIMEOUT":
+        return []
     if "harness_exc" in r:
         return ["worker error"]
     diffs = []
@@ -420,6 +424,9 @@ def parse_run_tags(s):
 
 
 # ---------------------------------------------------------------- main
+_CONFIRMED = [0]
+
+
 def run_impl_cases(cases, tag):
     nw = min(cm.NCPU, max(1, len(cases) // 8))
     chunks = [cases[i::nw] for i in range(nw)]
@@ -431,7 +438,16 @@ def run_impl_cases(cases, tag):
             for i, x in zip(idxs, rr["result"]["results"]):
                 out[i] = x
         else:
-            singles = cm.run_impl_parallel(PID, "c14", [dict(cases=[c]) for c in ch], timeout=180, tag=tag + "_iso")
+            # a worker died or ran out of time: isolate the cases; a time-out is only believed after the case
+            # has been re-run ALONE with a generous limit (a busy machine or a cold numba cache is not a verdict)
+            singles = cm.run_impl_parallel(PID, "c14", [dict(cases=[c]) for c in ch], timeout=300, tag=tag + "_iso")
+            for j, s1 in enumerate(singles):
+                if s1["status"] == "timeout":
+                    if _CONFIRMED[0] >= 3:          # three confirmed hangs are a verdict; do not spend hours
+                        singles[j] = dict(status="unconfirmed-timeout", rc=None, log="")
+                        continue
+                    _CONFIRMED[0] += 1
+                    singles[j] = cm.run_impl(PID, "c14", dict(cases=[ch[j]]), timeout=900, tag=tag + "_alone")
             for i, s in zip(idxs, singles):
                 if s["status"] == "ok":
                     out[i] = s["result"]["results"][0]
@@ -511,7 +527,7 @@ def run(tier, seed, replay=None):
     tot = dict(bitwise=0, gjk_both_raise=0, mesh_value=0, borderline=0)
     for c, r in zip(cases, results):
         if c.get("malformed"):
-            if "harness_exc" in r:
+            if "harness_exc" in r and r["harness_exc"] != "PROCESS-UNCONFIRMED-TIMEOUT":
                 R.corr_broken.append(f"worker error on malformed case: {r['harness_exc']} {r.get('harness_msg')}")
             continue
         f, st = judge_case(c, r)
